@@ -8,11 +8,12 @@ From LC Require Model.Keyboard.
 From LC Require Import Base.Lib Gen.Keyboard_gen Gen.Capi_gen Gen.Editor_gen Model.Composition Model.Conversion Model.Editor
      Model.EditorRun Model.EdInst Model.CapiKeys Model.CapiConfig Model.CapiRun
      Proofs.CompositionProofs Proofs.EdInstProofs Proofs.EditorInv Proofs.EditorSelect Proofs.Paging Proofs.NoPanic
-     Proofs.CapiKeysProofs.
+     Proofs.EditorFrames Proofs.CapiKeysProofs.
 Import ListNotations.
 
 (* the getters, by their C names *)
 Definition flag (k : nat) (c : cctx) : Z := List.nth k (c_flags c) 0%Z.
+Definition chewing_commit_Check := flag 0.
 Definition chewing_buffer_Len := flag 2.
 Definition chewing_cursor_Current := flag 4.
 Definition chewing_cand_CheckDone := flag 5.
@@ -20,6 +21,8 @@ Definition chewing_cand_TotalPage := flag 6.
 Definition chewing_cand_ChoicePerPage := flag 7.
 Definition chewing_cand_TotalChoice := flag 8.
 Definition chewing_cand_CurrentPage := flag 9.
+Definition chewing_keystroke_CheckIgnore := flag 12.
+Definition chewing_keystroke_CheckAbsorb := flag 13.
 
 Section CapiInv.
 Variable conv : conv_fn memdict.
@@ -88,6 +91,51 @@ Proof.
     unfold pages_of in Hlt. lia.
   - intros Hz. assert (List.length l = 0) by lia. destruct Hpg as [->|Hlt]; [reflexivity | lia].
   - rewrite skipn_length. destruct Hpg as [->|Hlt]; [cbn; lia | nia].
+Qed.
+
+(* C02 through the C getters: after a key-entry call (chewing_handle_* / Default / CtrlNum / Numlock with any int)
+   chewing_commit_Check = 1 only together with the key result Commit - then neither chewing_keystroke_CheckIgnore
+   nor chewing_keystroke_CheckAbsorb is set *)
+Definition key_call (o : cop) : Prop :=
+  match o with CHandle _ _ | CDefault _ | CCtrlNum _ | CNumlock _ => True | _ => False end.
+
+Lemma press_commit c ev c' : press conv c ev = Ok c' -> commit_buf (sh (cx_ed c')) <> [] -> last (sh (cx_ed c')) = BCommit.
+Proof.
+  unfold press, ml_key. destruct ev as [ev| | |]; try discriminate.
+  destruct (process_keyevent mdf_ops lay_ops conv (cx_ed c) (of_key_event ev)) as [[e b]| | |] eqn:E; try discriminate.
+  intros H Hne. inversion H; subst c'; clear H. cbn [cx_ed with_ed fst] in *.
+  pose proof (commit_string_only_with_commit mdf_ops lay_ops conv _ _ _ _ E Hne) as Hb. subst b.
+  unfold process_keyevent in E. cbv zeta in E.
+  match type of E with obind ?r ?f = _ => destruct r as [[s2 st2]| | |]; cbn [obind] in E; try discriminate end.
+  match type of E with obind ?r ?f = _ => destruct r as [s3| | |]; cbn [obind] in E; try discriminate end.
+  inversion E; subst. reflexivity.
+Qed.
+
+Theorem c_commit_check_only_with_commit c o c' : key_call o -> cstep conv c o = Ok c' ->
+  (* chewing_handle_CtrlNum with a key that is no digit returns -1 and handles nothing *)
+  c' = c \/
+  (chewing_commit_Check c' = 1%Z ->
+   chewing_keystroke_CheckIgnore c' = 0%Z /\ chewing_keystroke_CheckAbsorb c' = 0%Z /\ c_commit_string c' <> []).
+Proof.
+  intros Hk H.
+  assert (G : commit_buf (sh (cx_ed c')) <> [] -> last (sh (cx_ed c')) = BCommit ->
+              chewing_commit_Check c' = 1%Z ->
+              chewing_keystroke_CheckIgnore c' = 0%Z /\ chewing_keystroke_CheckAbsorb c' = 0%Z /\ c_commit_string c' <> []).
+  { intros Hne Hl _. unfold chewing_keystroke_CheckIgnore, chewing_keystroke_CheckAbsorb, flag, c_flags, c_commit_string. cbn [List.nth].
+    rewrite Hl. cbn. repeat split; exact Hne. }
+  assert (Hne : chewing_commit_Check c' = 1%Z -> commit_buf (sh (cx_ed c')) <> []).
+  { intros Hc. unfold chewing_commit_Check, flag, c_flags in Hc. cbn [List.nth] in Hc.
+    destruct (commit_buf (sh (cx_ed c'))); [cbn in Hc; discriminate | discriminate]. }
+  destruct o as [code mods|key|key|key| | | | | | | | | | | | | |]; try contradiction; cbn [cstep] in H.
+  - right. intros Hc. apply G; [now apply Hne | eapply press_commit; [exact H | now apply Hne] | exact Hc].
+  - right. intros Hc. apply G; [now apply Hne | eapply press_commit; [exact H | now apply Hne] | exact Hc].
+  - unfold handle_ctrlnum, drop_rc in H. destruct ((48 <=? u8_of key)%N && (u8_of key <=? 57)%N).
+    + unfold handle_code in H.
+      destruct (press conv c (Keyboard.map_keycode (cx_kb c) (if (u8_of key =? 48)%N then kcN0 else (u8_of key - 48)%N) MOD_CTRL)) as [c1| | |] eqn:E;
+        try discriminate. inversion H; subst c'. right. intros Hc.
+      apply G; [now apply Hne | eapply press_commit; [exact E | now apply Hne] | exact Hc].
+    + inversion H; subst c'. now left.
+  - right. intros Hc. apply G; [now apply Hne | eapply press_commit; [exact H | now apply Hne] | exact Hc].
 Qed.
 
 End CapiInv.
